@@ -259,10 +259,43 @@ def pc_cases(rng, tier):
     return cases
 
 
+def conv_cases(rng, tier):
+    """essential_types::convert on model and code: word <-> bytes, fixed-width arrays, hex strings, bool"""
+    cases = []
+    words = list(BOUNDARY_WORDS) + [0x0102030405060708, -0x0102030405060708, 0x7F, 0x80, 0xFF00, -256]
+    for w in words:
+        cases.append(f"conv w2b {w}")
+        cases.append(f"conv bool {w}")
+        cases.append("conv b2w " + hx((w & ((1 << 64) - 1)).to_bytes(8, "big")))
+    for ln in range(0, 12):
+        cases.append("conv bs2w " + hx(bytes((0x80 + 3 * i) & 0xFF for i in range(ln))))
+    cases.append("conv bs2w " + hx(bytes([0xFF]) * 20))
+    for _ in range(30 if tier == "quick" else 2000):
+        b32 = bytes(rng.choice([0, 0xFF, 0x80, 0x7F, rng.randrange(256)]) for _ in range(32))
+        b64 = bytes(rng.choice([0, 0xFF, 0x80, 0x7F, rng.randrange(256)]) for _ in range(64))
+        cases.append("conv w4 " + hx(b32))
+        cases.append("conv w8 " + hx(b64))
+        ws4 = [rng.choice(words) for _ in range(4)]
+        ws8 = [rng.choice(words) for _ in range(8)]
+        cases.append("conv u32 " + L(ws4))
+        cases.append("conv u64 " + L(ws8))
+        ws = [rng.choice(words) for _ in range(rng.randrange(0, 5))]
+        cases.append("conv hex " + L(ws))
+        hs = "".join(f"{(w & ((1 << 64) - 1)):016x}" for w in ws)
+        cases.append("conv unhex s" + (hs.upper() if rng.random() < 0.3 else hs))
+        cut = rng.randrange(len(hs) + 1)
+        cases.append("conv unhex s" + hs[:cut])
+        if hs:
+            j = rng.randrange(len(hs))
+            cases.append("conv unhex s" + hs[:j] + rng.choice("gxz-") + hs[j + 1:])
+    return cases
+
+
 def c18_cases(rng, tier):
     cases, oracles = [], []
     oracles += serde_oracles(rng, tier)
     cases += pc_cases(rng, tier)
+    cases += conv_cases(rng, tier)
     # predicates: sizes 0..limits, any edge_start incl. the leaf marker
     for nn, ne in ((0, 0), (1, 0), (0, 1), (1, 1), (2, 3), (1000, 1000), (1001, 0), (0, 1001), (1000, 1001), (999, 999)):
         nodes = [((i * 7) % 65536 if i % 3 else EDGE_MAX, addr(i)) for i in range(nn)]
